@@ -31,6 +31,9 @@ func (valdec listDecoder) Decode(dec *Decoder, p interface{}, tag byte) {
 		*plist = list.New()
 	case TagList:
 		count := dec.ReadCount()
+		if !dec.enter() {
+			count = 0
+		}
 		l := list.New()
 		*plist = l
 		if !dec.IsSimple() {
@@ -41,7 +44,7 @@ func (valdec listDecoder) Decode(dec *Decoder, p interface{}, tag byte) {
 			dec.decodeInterface(dec.NextByte(), &e)
 			l.PushBack(e)
 		}
-		dec.Skip()
+		dec.leave()
 	default:
 		dec.defaultDecode(listType, p, tag)
 	}
